@@ -165,6 +165,82 @@ theorem json_empty (e : Env) (b : Buf) (limit : Nat) (hl : 0 < limit) (h : b.dat
     subst h1
     exact ⟨b1, e1, rfl⟩
 
+/-! ### a JSON stream that ends inside an object -/
+
+/-- a frame cut short never closes its top-level object. -/
+theorem scanPure_prefix_none (s : Scan) (m : Bytes) (i : Nat) (h : scanPure s m i = some (i + m.length))
+    (k : Nat) (hk : k < m.length) : scanPure s (m.take k) i = none := by
+  induction m generalizing s i k with
+  | nil => simp at hk
+  | cons c rest ih =>
+    cases k with
+    | zero => simp [scanPure]
+    | succ k =>
+      simp only [List.take_succ_cons]
+      unfold scanPure at h
+      rw [scanPure]
+      cases hsb : scanByte s c with
+      | done =>
+        simp only [hsb, Option.some.injEq, List.length_cons] at h
+        simp only [List.length_cons] at hk
+        omega
+      | unbalanced => simp [hsb] at h
+      | cont s' =>
+        simp only [hsb] at h ⊢
+        exact ih _ (i + 1) (by rw [h]; simp only [List.length_cons]; congr 1; omega) k
+          (by simpa using hk)
+
+/-- the scanner loop over bytes on which the object never closes: an error with `n = 0`
+(io.EOF only with everything that arrived still in the buffer). -/
+theorem jsonLoop_never (W : Bytes) : ∀ (fuel i : Nat) (s : Scan) (e : Env) (b : Buf),
+    b.data ++ e.data = W → scanPure s (W.drop i) i = none →
+    ∃ dst err e', jsonLoop fuel i s e b = (⟨dst, 0, some err⟩, e') ∧ (err = .eof → dst.data = W) := by
+  intro fuel
+  induction fuel with
+  | zero => intro i s e b _ _; exact ⟨b, .tooLarge, e, rfl, by intro h; cases h⟩
+  | succ fuel ih =>
+    intro i s e b hW hs
+    unfold jsonLoop
+    have hf := fill_spec e b i
+    generalize fill e b i = r at hf
+    obtain ⟨b1, res, e1⟩ := r
+    simp only at hf
+    obtain ⟨hc, hok, herr⟩ := hf
+    rw [hW] at hc
+    cases res with
+    | some err =>
+      obtain ⟨h1, hemp, _⟩ := herr err rfl
+      rw [hemp, List.append_nil] at hc
+      exact ⟨b1, err, e1, rfl, fun _ => hc⟩
+    | none =>
+      have hlt := hok rfl
+      have hiW : i < W.length := by
+        have : b1.data.length ≤ W.length := by rw [← hc]; simp
+        omega
+      have hget : b1.data[i]? = some W[i] := by
+        have : (b1.data ++ e1.data)[i]? = W[i]? := by rw [hc]
+        rw [List.getElem?_append_left hlt] at this
+        rw [this]; simp [hiW]
+      simp only [hget]
+      have hd : W.drop i = W[i] :: W.drop (i + 1) := by
+        rw [List.drop_eq_getElem_cons hiW]
+      rw [hd] at hs
+      unfold scanPure at hs
+      split at hs <;> rename_i hsb <;> simp only [hsb]
+      · simp at hs
+      · exact ⟨b1, .unbalanced, e1, rfl, by intro h; cases h⟩
+      · exact ih (i + 1) _ e1 b1 hc hs
+
+/-- **Truncation law** of `CodecJSON`: if the bytes still to come are a proper prefix of a
+frame, `ReadNext` reports an error with `n = 0` — never a message. -/
+theorem json_truncated (e : Env) (b : Buf) (limit : Nat) (m : Bytes) (k : Nat)
+    (hm : JsonFrame m) (hk2 : k < m.length) (hW : b.data ++ e.data = m.take k) :
+    ∃ dst err e', jsonReadNext e b limit = (⟨dst, 0, some err⟩, e') ∧
+      (err = .eof → dst.data = m.take k) := by
+  have hn : scanPure scanInit ((m.take k).drop 0) 0 = none := by
+    simpa using scanPure_prefix_none scanInit m 0 (by simpa [JsonFrame] using hm) k hk2
+  exact jsonLoop_never (m.take k) limit 0 scanInit e b hW hn
+
 def jsonSeq (limit : Nat) : Nat → List Nat → Env → Buf → List Bytes × Option RErr
   | 0, _, _, _ => ([], none)
   | k + 1, spares, e, b =>
